@@ -1,5 +1,6 @@
 import SiaModel.Ids.Sem
 import SiaModel.Prim.Blake2b
+import SiaModel.Policy.Address
 /-!
 # SiaModel.Ids.Derive — id and sighash derivations (types/types.go, consensus/state.go)
 
@@ -206,8 +207,40 @@ def blockIdPre (parentID : Bytes) (nonce timestamp : Nat) (commitment : Bytes) :
 /-- leaf of the v1 block Merkle tree for a miner payout / a transaction: `0x00 ‖ encoding` -/
 def v1LeafPre (encoding : Bytes) : Bytes := 0 :: encoding
 
-/-- `State.MerkleLeafHash(minerAddr)`: `0x00 ‖ "sia/commitment|" ‖ prefix ‖ H(state) ‖ minerAddr` -/
-def commitmentLeafPre (stateHash minerAddr : Bytes) : Bytes :=
-  [0] ++ dist "commitment" ++ [UInt8.ofNat v2ReplayPrefix] ++ stateHash ++ minerAddr
+/-- the data of the first leaf of the v2 commitment tree (`State.MerkleLeafHash(minerAddr)` without
+the leaf prefix): `"sia/commitment|" ‖ prefix ‖ H(state) ‖ minerAddr` -/
+def commitmentLeafData (stateHash minerAddr : Bytes) : Bytes :=
+  dist "commitment" ++ [UInt8.ofNat v2ReplayPrefix] ++ stateHash ++ minerAddr
+
+/-- `State.MerkleLeafHash(minerAddr)` preimage: `0x00 ‖` the leaf data -/
+def commitmentLeafPre (stateHash minerAddr : Bytes) : Bytes := 0 :: commitmentLeafData stateHash minerAddr
+
+/-! ### the Merkle trees under the block id (`blake2b.Accumulator`)
+
+Over an abstract hash algebra: `lf d` = BLAKE2b(0x00 ‖ d) (`hashAll(leafHashPrefix, …)`), `nd l r` =
+BLAKE2b(0x01 ‖ l ‖ r) (`blake2b.SumPair`), `zero` the root of the empty accumulator.  The accumulator
+itself is `Sia.Policy.merkleRootG` (`AddLeaf` / `Root`, shared with C14's unlock-conditions root). -/
+
+def toBA (b : Bytes) : ByteArray := ⟨b.toArray⟩
+
+section trees
+variable {D : Type} (lf : ByteArray → D) (nd : D → D → D) (zero : D)
+
+/-- `State.Commitment(minerAddr, txns, v2txns)`: the state/miner leaf, then a leaf for every v1 and
+every v2 transaction encoding -/
+def commitmentG (stateHash minerAddr : Bytes) (v1Encs v2Encs : List Bytes) : D :=
+  Sia.Policy.merkleRootG nd zero ((commitmentLeafData stateHash minerAddr :: (v1Encs ++ v2Encs)).map (fun d => lf (toBA d)))
+
+/-- `blockMerkleRoot(minerPayouts, txns)`: a leaf for every miner payout, then for every transaction -/
+def blockMerkleRootG (payoutEncs txnEncs : List Bytes) : D :=
+  Sia.Policy.merkleRootG nd zero ((payoutEncs ++ txnEncs).map (fun d => lf (toBA d)))
+end trees
+
+/-- real BLAKE2b instances (driver) -/
+def commitmentB (stateEnc minerAddr : Bytes) (v1Encs v2Encs : List Bytes) : ByteArray :=
+  commitmentG (Sia.Policy.leafHash Sia.blake2b256) (Sia.Policy.nodeHash Sia.blake2b256) (Sia.Bytes.zeros 32)
+    (blake stateEnc) minerAddr v1Encs v2Encs
+def blockMerkleRootB (payoutEncs txnEncs : List Bytes) : ByteArray :=
+  blockMerkleRootG (Sia.Policy.leafHash Sia.blake2b256) (Sia.Policy.nodeHash Sia.blake2b256) (Sia.Bytes.zeros 32) payoutEncs txnEncs
 
 end Sia.Ids
